@@ -84,6 +84,9 @@ class LineHooks(Hooks):
                 isinstance(args[0], str):
             if args[0] in base.attrs:
                 return base.attrs[args[0]]
+            d = base.attrs.get("_data")
+            if isinstance(d, dict):
+                return d.get(args[0])
             raise Unsupported("field %s of %r is not declared by the rule" %
                               (args[0], base))
         if name == "_set_existing_field":
@@ -127,4 +130,12 @@ class LineHooks(Hooks):
             return getattr(_re, ent.name.split(".")[1])(args[0], args[1])
         if isinstance(node.func, _ast.Name) and node.func.id == "type":
             return "<type>"
+        return NotImplemented
+
+    def class_attr(self, ev, cls, attr):
+        """record definition constants as post-processed at import time"""
+        from .model import RECORD_CONSTANTS, record_table
+        if attr in RECORD_CONSTANTS and self.repo.cls("Line") in cls.mro \
+                and cls.applies_definitions:
+            return getattr(record_table(self.repo, cls), attr)
         return NotImplemented
